@@ -50,6 +50,16 @@ func regObjName(o meta.Object) string {
 	return o.TLName()
 }
 
+// creatability on a lookup path: a nil constructor must show up as a result, not kill the whole line
+func regSafe(f func() string) (res string) {
+	defer func() {
+		if r := recover(); r != nil {
+			res = "panic"
+		}
+	}()
+	return f()
+}
+
 func regShowItem(it meta.TLItem, anns []string) string {
 	bits := ""
 	iv := reflect.ValueOf(it)
@@ -82,9 +92,9 @@ func regShowItem(it meta.TLItem, anns []string) string {
 		if x == it {
 			tagrt = "same"
 		} else {
-			tagrt = "other:" + x.TLName()
+			tagrt = fmt.Sprintf("other:%s:fun=%v", x.TLName(), x.IsFunction()) // a different item object sits in the tag index
 		}
-		factag = regObjName(factory.CreateObject(it.TLTag()))
+		factag = regSafe(func() string { return regObjName(factory.CreateObject(it.TLTag())) })
 	} else if o := factory.CreateObject(it.TLTag()); o != nil {
 		factag = "unexpected:" + o.TLName()
 	}
@@ -96,7 +106,12 @@ func regShowItem(it meta.TLItem, anns []string) string {
 	facfn := "none"
 	if f := factory.CreateFunctionFromName(it.TLName()); f != nil {
 		facfn = f.TLName()
-		if f2 := factory.CreateFunction(it.TLTag()); f2 == nil || reflect.TypeOf(f2) != reflect.TypeOf(f) {
+		if regSafe(func() string {
+			if f2 := factory.CreateFunction(it.TLTag()); f2 == nil || reflect.TypeOf(f2) != reflect.TypeOf(f) {
+				return "bad"
+			}
+			return "ok"
+		}) != "ok" {
 			facfn += "!bytag"
 		}
 	}
@@ -104,9 +119,24 @@ func regShowItem(it meta.TLItem, anns []string) string {
 	if reflect.TypeOf(factory.CreateObjectFromName(it.TLName())) != reflect.TypeOf(obj) {
 		facname += "!type"
 	}
-	return fmt.Sprintf("ok %s %08x fun=%v tl1=%v tl2=%v ann=%s/%d namert=%s tagrt=%s obj=%s,%08x fn=%s facname=%s factag=%s facfn=%s",
+	// the object created on this path writes a boxed encoding that starts with the tag it reports (write errors of a
+	// zero object -- size fields vs empty arrays -- are not this property's)
+	box := "ok"
+	if it.HasTL1() {
+		func() {
+			old := debug.SetMaxStack(32 << 20)
+			defer debug.SetMaxStack(old)
+			if w, err := obj.WriteTL1BoxedGeneral(nil); err == nil {
+				t := obj.TLTag()
+				if len(w) < 4 || w[0] != byte(t) || w[1] != byte(t>>8) || w[2] != byte(t>>16) || w[3] != byte(t>>24) {
+					box = "bad:" + hx(w)
+				}
+			}
+		}()
+	}
+	return fmt.Sprintf("ok %s %08x fun=%v tl1=%v tl2=%v ann=%s/%d namert=%s tagrt=%s obj=%s,%08x fn=%s facname=%s factag=%s facfn=%s box=%s",
 		it.TLName(), it.TLTag(), it.IsFunction(), it.HasTL1(), it.HasTL2(), bits, regAnnMethods(), namert, tagrt,
-		obj.TLName(), obj.TLTag(), fn, facname, factag, facfn)
+		obj.TLName(), obj.TLTag(), fn, facname, factag, facfn, box)
 }
 
 func init() {
@@ -135,6 +165,15 @@ func init() {
 			return "none"
 		}
 		return regShowItem(it, regAnnList(f[2]))
+	}
+	// regidx <i> <ann,ann,...|->: the i-th item of GetAllTLItems()
+	ops["regidx"] = func(f []string) string {
+		i, _ := strconv.Atoi(f[1])
+		items := meta.GetAllTLItems()
+		if i < 0 || i >= len(items) {
+			return "none"
+		}
+		return regShowItem(items[i], regAnnList(f[2]))
 	}
 	// regbox <tid> <name> <hex> <seed|->: object state = FillRandom(seed) (must write <hex>) or ReadTL1Boxed(<hex>);
 	// report TLName/TLTag of the object and the first 4 bytes it writes boxed
